@@ -159,6 +159,9 @@ LEVEL_TEXT["C10"] = ("fault enumeration within sampled histories (replication sw
                      "usable snapshot), the FSM stream with the committed history, and NewRaft must return")
 PROFILES["C10"]["level_text"] = LEVEL_TEXT["C10"]
 
+# C03: general profile, Figure-8 profile (fixed membership, one entry per request, leaders writing while cut off), S2 sweep
+PROFILES["C03"]["scenarios"] = [s1(quick_runs=1600, quick_budget_s=35), s1("C03f8", quick_runs=1500, quick_budget_s=25, thorough_budget_s=900)] + PROFILES["C03"]["scenarios"][1:]
+
 # C17: the chaotic half (profile C17) and the calm half with brief link losses inside calls (profile C17b)
 PROFILES["C17"]["scenarios"] = [s1(quick_runs=1500, quick_budget_s=30), s1("C17b", quick_runs=1200, quick_budget_s=25, thorough_budget_s=600)]
 
